@@ -40,17 +40,28 @@ def random_creations(rng, *, types=None, composite=True, full=False):
     rng.shuffle(out)
     if composite and rng.random() < 0.7:
         out.append(("CompositeFeatureObserver", None))
+        if rng.random() < 0.4:      # a composite of everything so far, the inner composite included
+            out.append(("CompositeFeatureObserver", None))
     return out
 
 
-def feature_trace(tid, beh, creations, *, fresh_run=True):
+def feature_trace(tid, beh, creations, *, fresh_run=True, attach_after=0):
+    """attach_after > 0: the observers are constructed after that many dispatches (C12: a reset must still make
+    them indistinguishable from observers constructed on a fresh dispatcher)."""
     s = dsession.DSession(tid, beh["inst"], beh["filt"], ())
     made = []
+    pre = [a for a in beh["hist"] if a["a"] == "D"][:attach_after] if attach_after else []
+    for a in pre:
+        s.dispatch(a["j"], a["p"], a["m"])
     for (t, fts) in creations:
         if s.create_builtin(t, fts) == "ok":
             made.append((t, fts))
-    s.header["featcheck"] = True
-    s.header["fresh_obs"] = s.post()["obs"]
+    if not pre:
+        s.header["featcheck"] = True
+        s.header["fresh_obs"] = s.post()["obs"]
+    else:
+        s.reset()
+        s.fresh_run(made, [])          # right after the reset: as if constructed on a fresh dispatcher
     since = []
     for a in beh["hist"]:
         k = a["a"]
@@ -131,6 +142,14 @@ def c12():
     n = _traces(chk, behs, rng, "tlc-simulated-resets+random-creation-orders")
     rb = [random_behaviour(rng, resets=0.12, max_jobs=4, max_ops=4, max_m=3) for _ in range(_n(chk, 120, 1200))]
     n += _traces(chk, rb, rng, "random-large-resets", start=n + 1)
+    # observers attached in the middle of a history, then a reset
+    late = []
+    for i, b in enumerate((behs + rb)[: _n(chk, 150, 1200)]):
+        nd = sum(1 for a in b["hist"] if a["a"] == "D")
+        cr = random_creations(rng, composite=False)
+        late.append(feature_trace(n + 1 + i, b, cr, attach_after=rng.randint(1, max(1, nd))))
+    chk.monitor(late, source="observers-attached-mid-history-then-reset")
+    n += len(late)
     # the graph updater among the observers, and whole environments over several episodes
     from .gchecks import residual_trace, BUILDERS
     from .echecks import env_trace, random_env_cfg
